@@ -1,4 +1,19 @@
-"""C23 Query access operations honour their contracts (dbms/query)"""
+"""C23 Query access operations honour their contracts (dbms/query)
+
+Mutation testing (scratch worktree, VERIF_REPO=<dir>, quick tier, seed 1; green = package tests pass):
+  orderedn-skip            best.go orderedn: an index whose leading column is fixed to several values is
+                           taken as giving the order of the next column (`t where a in (1,2) sort b`
+                           read through index (a,b) without a temp index)                 green -> VIOLATION
+  summarize-select-noclear summarize.go Select(nil) does not clear the residual selection   green -> VIOLATION
+  extend-conflict-sticky   extend.go Select: a conflict with fixed values is never reset    green -> VIOLATION
+  lookup-nofilter          where.go Lookup returns the source row without applying the where
+  rewind-clears-select     where.go Rewind resets the index selection of the last Select
+  ti-rewind-clears-select  tempindex.go Rewind clears the selection
+  project-overclaims-key   project.go projectKeys keeps keys that only overlap the projection
+                           (these four: package tests already red; all four -> VIOLATION)
+  (lj-keys-1n, join-keys-swapped, lj-fixed-noempty, union-fixed-src1, sort-reverse-next-only,
+   ti-less-firstcol: package tests red, not run)
+"""
 import relcommon
 
 META = {
